@@ -300,7 +300,7 @@ func main() {
 		if v, ok := fc.nat["saslMaxRequestLength"]; ok {
 			consts["MaxRequestLength"] = v
 		}
-		sw.WriteString(translateFunc(f, fset, "scanLengthEncodedString", "scanLengthEncodedString", "Bytes → Bool → Nat × Option Bytes × Bool", consts, nil))
+		sw.WriteString(translateFunc(f, fset, "scanLengthEncodedString", "scanLengthEncodedString", "Bytes → Bool → Int × Option Bytes × Bool", consts, nil))
 	} else {
 		sw.WriteString("def scanLengthEncodedString : Option (Bytes → Bool → Nat × Option Bytes × Bool) := none\n")
 	}
